@@ -258,12 +258,12 @@ fn consume(src: &Vec<char>, start: usize, line: u32, src_file_path: String) -> R
             }
 
             consumed_char = consumed;
-            consumed_line = 0;
+            consumed_line = val.chars().filter(|c| *c == '\n').count() as u32;
             token = Token {
                 kind: TokenKind::String(val),
                 // start + 1 for excluding first " and (start+consumed_char)-1 for excluding last "
                 lexeme: src[(start+1)..((start+consumed_char)-1)].to_vec(),
-                line: line + consumed_line,
+                line,
                 src_file_path,
             }
         },
